@@ -98,6 +98,29 @@ func genColumns(c *ctx) (string, error) {
 		var decoders []string // (column, decoder, via ReadOr default or Read)
 		checksMissing := false
 		var walkErr error
+		// local tables of names: `x := [7]string{...}` / `var x = []string{...}` (ranged over to create columns)
+		identLits := map[string]*ast.CompositeLit{}
+		ast.Inspect(fd.Body, func(n ast.Node) bool {
+			switch x := n.(type) {
+			case *ast.AssignStmt:
+				if len(x.Lhs) == 1 && len(x.Rhs) == 1 {
+					if id, ok := x.Lhs[0].(*ast.Ident); ok {
+						if cl, ok := x.Rhs[0].(*ast.CompositeLit); ok {
+							identLits[id.Name] = cl
+						}
+					}
+				}
+			case *ast.ValueSpec:
+				if len(x.Names) == 1 && len(x.Values) == 1 {
+					if cl, ok := x.Values[0].(*ast.CompositeLit); ok {
+						identLits[x.Names[0].Name] = cl
+					}
+				}
+			}
+			return true
+		})
+		resolvedIdents := map[string]bool{} // range variables that stand for the elements of such a table
+		var unresolved []string
 		ast.Inspect(fd.Body, func(n ast.Node) bool {
 			switch x := n.(type) {
 			case *ast.AssignStmt:
@@ -109,15 +132,24 @@ func genColumns(c *ctx) (string, error) {
 								if id, ok := x.Lhs[0].(*ast.Ident); ok {
 									varCol[id.Name] = s
 								}
-							} else if _, isIdent := call.Args[0].(*ast.Ident); !isIdent {
+							} else if id, isIdent := call.Args[0].(*ast.Ident); !isIdent {
 								walkErr = fmt.Errorf("%s: column name is not a constant: %s", fn, exprString(c, call))
+							} else {
+								unresolved = append(unresolved, id.Name)
 							}
 						}
 					}
 				}
 			case *ast.RangeStmt:
 				// the weekday loop of parseCalendar: for i, days := range []string{...} { dayColumns[i] = f.RequiredColumn(days) }
-				if cl, ok := x.X.(*ast.CompositeLit); ok {
+				cl, ok := x.X.(*ast.CompositeLit)
+				if id, isId := x.X.(*ast.Ident); isId && !ok {
+					cl, ok = identLits[id.Name]
+				}
+				if ok {
+					if v, isId := x.Value.(*ast.Ident); isId {
+						resolvedIdents[v.Name] = true
+					}
 					isCol := false
 					ast.Inspect(x.Body, func(m ast.Node) bool {
 						if call, ok := m.(*ast.CallExpr); ok {
@@ -169,6 +201,11 @@ func genColumns(c *ctx) (string, error) {
 			}
 			return true
 		})
+		for _, u := range unresolved {
+			if !resolvedIdents[u] && walkErr == nil {
+				walkErr = fmt.Errorf("%s: column name %s is neither a constant nor an element of a local table of names", fn, u)
+			}
+		}
 		if walkErr != nil {
 			return "", walkErr
 		}
